@@ -134,7 +134,7 @@ Proof. reflexivity. Qed.
 
 (** a search call does not look at the cache: state AND answer are those of a fresh object *)
 Lemma m_step_search cfg st st' o : is_read o = false -> m_step cfg st o = m_step cfg st' o.
-Proof. destruct o; simpl; [reflexivity|reflexivity|discriminate]. Qed.
+Proof. destruct o; simpl; [reflexivity|reflexivity|discriminate|reflexivity]. Qed.
 
 Lemma m_run_reads cfg st rds : forallb is_read rds = true -> m_run cfg st rds = st.
 Proof.
@@ -186,12 +186,13 @@ Definition cache_ok (st : mstate) : Prop := s_flag st = None -> s_maps st = [] /
 
 Lemma m_step_ok cfg st o : cache_ok st -> cache_ok (fst (m_step cfg st o)).
 Proof.
-  intros H. destruct o as [g1 g2 mcs|x sd mcs comp|ds]; simpl.
+  intros H. destruct o as [g1 g2 mcs|x sd mcs comp|ds|g1 g2 mcs ch]; simpl.
   - intros E. discriminate.
   - unfold m_rc. destruct (pick_sides x sd) as [[ga gb]|]; simpl.
     + destruct comp; simpl; intros E; discriminate.
     + intros _. split; reflexivity.
   - exact H.
+  - destruct (apply_choices _ ch); simpl; [intros E; discriminate|intros _; split; reflexivity].
 Qed.
 
 Lemma m_run_ok cfg ops : forall st, cache_ok st -> cache_ok (m_run cfg st ops).
@@ -237,7 +238,9 @@ Theorem history_find_valid st ops g1 g2 mcs rds :
        (forall m, In m l12 -> length m = s_last stf) /\
        (forall m, common_induced nm edge_match (pr g1) (pr g2) m -> (length m <= s_last stf)%nat) /\
        (forall m, common_induced nm edge_match (pr g1) (pr g2) m -> length m = s_last stf -> (1 <= s_last stf)%nat ->
-          exists m', In m' l12 /\ Permutation m m')).
+          exists m', In m' l12 /\ Permutation m m')) /\
+    (mcs = false ->
+       forall m, common_induced nm edge_match (pr g1) (pr g2) m -> (1 <= length m)%nat -> exists m', In m' l12 /\ Permutation m m').
 Proof.
   intros N1 N2 Hr stf. unfold stf. rewrite (history_last_search cfg st ops (MFind g1 g2 mcs) rds eq_refl Hr).
   rewrite m_find_fresh.
@@ -249,7 +252,7 @@ Proof.
   split; [reflexivity|split; [reflexivity|split; [reflexivity|split; [reflexivity|]]]].
   split; [exact I1|split; [exact I2|split]].
   { unfold get_mappings. destruct (r_pattern_is_g1 r); [now left|now right]. }
-  split; [|split].
+  split; [|split; [|split]].
   - intros m Hm. exact (proj1 (fcs_valid _ _ _ _ _ P1 P2 mcs m) Hm).
   - intros m Hm. exact (proj1 (proj2 (fcs_valid _ _ _ _ _ P1 P2 mcs m)) Hm).
   - intros ->. destruct (fcs_maximum (c_defs cfg) (c_prune cfg) (c_wc cfg) _ _ P1 P2) as ((S1 & S2 & S3 & _) & _).
@@ -257,12 +260,38 @@ Proof.
     + intros m Hm. exact (proj2 (S1 m Hm)).
     + exact S2.
     + exact S3.
+  - intros ->. destruct (fcs_all (c_defs cfg) (c_prune cfg) (c_wc cfg) _ _ P1 P2) as ((_ & A2) & _).
+    fold r in A2. exact A2.
+Qed.
+
+(** prune_automorphisms=True after any history: with an accepted parameter the cache holds the chosen representatives (to which
+    [prune_auto_choices_valid] of proof/C12_Sorted.v applies: valid, host node sets pairwise different, sorted, complete up to
+    host node sets), size and flag are those of the unpruned search *)
+Theorem history_auto st ops g1 g2 mcs choices rds kept : forallb is_read rds = true ->
+  apply_choices (r_maps (find_common_subgraph (c_defs cfg) (c_prune cfg) (c_wc cfg) (project cfg g1) (project cfg g2) mcs)) choices = Some kept ->
+  m_run cfg st (ops ++ MFindAuto g1 g2 mcs choices :: rds) =
+  {| s_maps := kept;
+     s_last := r_last (find_common_subgraph (c_defs cfg) (c_prune cfg) (c_wc cfg) (project cfg g1) (project cfg g2) mcs);
+     s_flag := Some (r_pattern_is_g1 (find_common_subgraph (c_defs cfg) (c_prune cfg) (c_wc cfg) (project cfg g1) (project cfg g2) mcs)) |}.
+Proof.
+  intros Hr E. rewrite (history_last_search cfg st ops (MFindAuto g1 g2 mcs choices) rds eq_refl Hr).
+  cbn [m_step]. rewrite E. reflexivity.
 Qed.
 
 (** the ITS facade in non-component mode is find_common_subgraph on the selected sides *)
 Theorem rc_is_find st x sd mcs ga gb : pick_sides x sd = Some (ga, gb) ->
   m_step cfg st (MRc x sd mcs false) = m_step cfg st (MFind ga gb mcs).
 Proof. intros E. unfold m_step, m_rc. rewrite E. simpl. reflexivity. Qed.
+
+Theorem facade_sides st x sd mcs :
+  match sd with
+  | SR => m_step cfg st (MRc x sd mcs false) = m_step cfg st (MFind (rc_r1 x) (rc_r2 x) mcs)
+  | SL => m_step cfg st (MRc x sd mcs false) = m_step cfg st (MFind (rc_l1 x) (rc_l2 x) mcs)
+  | SOp => m_step cfg st (MRc x sd mcs false) = m_step cfg st (MFind (rc_r1 x) (rc_l2 x) mcs)
+  | SIts => m_step cfg st (MRc x sd mcs false) = m_step cfg st (MFind (rc_1 x) (rc_2 x) mcs)
+  | SBad => fst (m_step cfg st (MRc x sd mcs false)) = s_init
+  end.
+Proof. destruct sd; try (apply rc_is_find; reflexivity); reflexivity. Qed.
 
 (** component mode: exactly one stored mapping, reported G1 -> G2, valid for the selected sides (also across components) *)
 Theorem history_component_valid st ops x sd mcs ga gb rds :
